@@ -4,14 +4,16 @@
    file system alone.
 
    Code mirrored:
-     yamlpath/commands/yaml_set.py    481-664  main (the write is the last statement, 664)
+     yamlpath/commands/yaml_set.py    499-682  main (the write is the last statement)
                                       194-308  validateargs (sys.exit(1) at 307-308)
-                                      409-478  _try_load_input_file, _delete_nodes, _get_nodes,
+                                      427-496  _try_load_input_file, _delete_nodes, _get_nodes,
                                                _alias_nodes, _ymk_nodes
-     yamlpath/commands/yaml_merge.py  221-284  validateargs
-                                      492-557  main and the exit_state plumbing
-                                      468-490  merge_docs (3 = RHS not loaded)
-                                      286-303  write_output_document up to the backup copy
+                                      411-421  write_output_document: STDOUT branch
+     yamlpath/commands/yaml_merge.py  223-286  validateargs
+                                      507-572  main and the exit_state plumbing
+                                      483-505  merge_docs (3 = RHS not loaded)
+                                      288-300  write_output_document: the prepare_for_dump calls
+                                      349-371  write_output_document: STDOUT branch
      yamlpath/wrappers/consoleprinter.py 133-157 critical(): sys.exit(exit_code)
 
    What each step *computes* belongs to other models (C03/C04/C05/C16); here a
@@ -54,7 +56,9 @@ Record set_in := mkset {
   s_saveto : option step_res;     (* --saveto given: result of processor.set_value(saveto_path, ...) *)
   s_action : action;
   s_apply : step_res;             (* result of applying the change *)
-  s_whole_doc : bool              (* the caught delete exception says "delete the entire document" *)
+  s_whole_doc : bool;             (* the caught delete exception says "delete the entire document" *)
+  s_dump_ok : bool                (* the serialiser (ruamel's dumper for YAML, json for JSON) accepts
+                                     the changed document; false: it raises by itself *)
 }.
 
 (* for node in nodes: ... log.critical / sys.exit inside the loop *)
@@ -110,13 +114,18 @@ Definition set_pre (i : set_in) : option status :=
   ].
 
 Definition set_cfg (i : set_in) : cfg :=
-  if s_stream i then CSetStream else CSet (s_backup i) (s_json i).
+  if s_stream i then CSetStream else CSet (s_backup i) (s_json i) (s_dump_ok i).
 
-Definition set_main (i : set_in) (f : option fault) (s : fs) : save_out :=
+Definition set_main2 (i : set_in) (f f2 : option fault) (s : fs) : save_out :=
   match set_pre i with
   | Some st => mkout s [] st
-  | None => save (set_cfg i) f s
+  | None =>
+      (* yaml.dump / json.dump(..., sys.stdout) raising: uncaught, no file involved *)
+      if s_stream i && negb (s_dump_ok i) then mkout s [] SCrash
+      else save2 (set_cfg i) f f2 s
   end.
+
+Definition set_main (i : set_in) (f : option fault) (s : fs) : save_out := set_main2 i f None s.
 
 (* ---- yaml-merge -------------------------------------------------------- *)
 
@@ -141,7 +150,8 @@ Record merge_in := mkmerge {
   m_condense : bool;            (* multi-doc mode is CONDENSE_ALL *)
   m_single : mcode;             (* merge_condense_all(log, mergers, []) *)
   m_prepare : step_res;         (* the prepare_for_dump calls (incl. docs[0]) *)
-  m_outdocs : nat               (* len(mergers) when the result is written *)
+  m_outdocs : nat;              (* len(mergers) when the result is written *)
+  m_dump_ok : bool              (* the serialiser accepts the prepared result; false: it raises *)
 }.
 
 Inductive loop_end := LEnd (have : bool) (count : nat) (exit_state : nat) | LCrash.
@@ -185,7 +195,8 @@ Definition merge_exit_state (i : merge_in) : option nat :=
       end
   end.
 
-Definition merge_cfg (i : merge_in) : cfg := CMerge (m_mode i) (m_backup i) (m_json i) (m_outdocs i).
+Definition merge_cfg (i : merge_in) : cfg :=
+  CMerge (m_mode i) (m_backup i) (m_json i) (m_outdocs i) (m_dump_ok i).
 
 (* Everything main() does between validateargs and the backup copy. *)
 Definition merge_pre (i : merge_in) : option status :=
@@ -199,6 +210,8 @@ Definition merge_pre (i : merge_in) : option status :=
   | Some n => Some (SExit n)
   end.
 
+Definition is_stdout (m : out_mode) : bool := match m with ToStdout => true | _ => false end.
+
 Definition merge_main (i : merge_in) (f : option fault) (s : fs) : save_out :=
   if negb (m_usage_ok i) then mkout s [] (SExit 2)
   else
@@ -210,7 +223,10 @@ Definition merge_main (i : merge_in) (f : option fault) (s : fs) : save_out :=
     | SOk =>
         match merge_pre i with
         | Some st => mkout (o_fs v) (o_trace v) st
-        | None => run_plan p f s
+        | None =>
+            (* the dump to sys.stdout raising: uncaught, no file involved *)
+            if is_stdout (m_mode i) && negb (m_dump_ok i) then mkout (o_fs v) (o_trace v) SCrash
+            else run_plan p f s
         end
     | _ => v
     end.
